@@ -53,6 +53,31 @@ def run(ctx):
         guard_ret = [n for n in cfg.nodes if n.kind == "stmt" and isinstance(n.ast, ast.Return) and ("self.is_pending", False) in facts_at(cfg, n)]
         r1.check(bool(guard_ret), f"{m.rel}:{q}:early-return", "no early return for an already settled promise", m.rel, fn.lineno)
 
+    # no other method settles: outside do_resolve/do_reject the state fields are written only as initial values, i.e. in __init__ before the executor runs
+    pcls = m.cls("Promise")
+    ninit = 0
+    for st in pcls.body:
+        if not isinstance(st, (ast.FunctionDef, ast.AsyncFunctionDef)) or st.name in ("do_resolve", "do_reject"):
+            continue
+        cfgm = CFG(st)
+        user_calls = [cfgm.node_of(c) for c in calls_in(st, shallow=True) if isinstance(c.func, ast.Name) and c.func.id in {a.arg for a in st.args.args}]
+        for n in cfgm.nodes:
+            if n.kind == "stmt" and isinstance(n.ast, (ast.Assign, ast.AnnAssign)) and any(isinstance(t, ast.Attribute) and t.attr in STATE and src(t.value) == "self" for t in assigned_targets(n.ast)):
+                ninit += 1
+                fld = [t.attr for t in assigned_targets(n.ast) if isinstance(t, ast.Attribute)][0]
+                after_user = any(cfgm.can_reach(u, n) for u in user_calls)
+                r1.check(
+                    st.name == "__init__" and not after_user,
+                    f"{m.rel}:Promise.{st.name}:write {fld}",
+                    f"`{src(n.ast)}` in Promise.{st.name} (line {n.lineno}) writes the settlement state outside do_resolve/do_reject"
+                    + (" after the executor callable has run" if after_user else "")
+                    + ": it bypasses the `if not self.is_pending: return` guard, so an executor that settles the promise and then raises gets its first settlement overwritten (and listeners are not notified)",
+                    m.rel,
+                    n.lineno,
+                )
+    if ninit < 3:
+        raise AnalysisError(f"only {ninit} initial state writes found in Promise.__init__", "Promise.__init__")
+
     r2 = ctx.rule("C13.2", "promise state and callback lists are written only inside class Promise", floor=9)
     nw = 0
     for mod in repo.modules.values():
